@@ -44,11 +44,22 @@ var decimalSpecials = []string{"0.1", "0.2", "0.3", "0.5", "1.5", "-0.1", "1.000
 // NumOpts controls the number generator.
 type NumOpts struct {
 	NoInf bool
+	// Extreme adds numbers with exponents of tens of thousands (1e30000,
+	// -7e45000, 1e-30000, 2^70000): beyond every fixed-width format and every
+	// sanity limit a piece of code may have put on exponents; their decimal
+	// text has tens of thousands of digits. Off by default.
+	Extreme bool
 }
+
+var extremeNums = []string{"1e30000", "-7e45000", "1e-30000", "123456789e19990"}
 
 // Num draws a number by class (DESIGN.md §2.3).
 func Num(o NumOpts) *rapid.Generator[spec.Num] {
 	return rapid.Custom(func(t *rapid.T) spec.Num {
+		// (the middle of a rapid range of 400 comes up about once in 700 draws)
+		if o.Extreme && rapid.IntRange(0, 399).Draw(t, "extreme") == 200 {
+			return spec.NParse(rapid.SampledFrom(extremeNums).Draw(t, "xnum"))
+		}
 		cls := rapid.IntRange(0, 14).Draw(t, "numclass")
 		switch cls {
 		case 14:
@@ -362,6 +373,8 @@ type ValOpts struct {
 	Long int
 	// inLong is set while the members of a long collection are drawn.
 	inLong bool
+	// ExtremeNums: see NumOpts.Extreme.
+	ExtremeNums bool
 }
 
 // LongSizes are the member counts of long collections: just past the usual
@@ -497,7 +510,7 @@ func drawKnown(t *rapid.T, ty spec.T, o ValOpts) spec.V {
 		if o.Simple {
 			return spec.KnownNum(SmallInt(-3, 12).Draw(t, "n"))
 		}
-		return spec.KnownNum(Num(NumOpts{NoInf: o.NoInf}).Draw(t, "n"))
+		return spec.KnownNum(Num(NumOpts{NoInf: o.NoInf, Extreme: o.ExtremeNums}).Draw(t, "n"))
 	case spec.KString:
 		if o.Simple && o.inLong && rapid.Bool().Draw(t, "wide") {
 			return spec.KnownStr(SimpleString().Draw(t, "s") + strconv.Itoa(rapid.IntRange(0, 60).Draw(t, "sfx")))
